@@ -85,6 +85,16 @@ fn read_set(path: &Path, into: &mut HashSet<u64>) {
     }
 }
 
+/// Hash of one run's plan and event log; combined commutatively so that the batch hash does
+/// not depend on how runs are partitioned over workers.
+pub fn run_trace_hash(run: u64, case_json: &str, lines: &[String], failed: bool) -> u64 {
+    let mut h = crate::prng::mix(run, crate::prng::fnv1a(case_json.as_bytes()));
+    for line in lines {
+        h = crate::prng::mix(h, crate::prng::fnv1a(line.as_bytes()));
+    }
+    crate::prng::mix(h, failed as u64)
+}
+
 pub fn gen_case<W: World>(seed: u64, prop: &str, tier: Tier, run: u64) -> W::Case {
     let label = format!("{}/{}", W::NAME, prop);
     let mut rng = Rng::new(run_seed(seed, &label, run));
@@ -145,11 +155,7 @@ pub fn worker<W: World>(
         };
         if trace {
             let t = ctx.trace.take().unwrap_or_default();
-            trace_hash = crate::prng::mix(trace_hash, crate::prng::fnv1a(serde_json::to_string(&case).unwrap().as_bytes()));
-            for line in &t {
-                trace_hash = crate::prng::mix(trace_hash, crate::prng::fnv1a(line.as_bytes()));
-            }
-            trace_hash = crate::prng::mix(trace_hash, r.is_err() as u64);
+            trace_hash = trace_hash.wrapping_add(run_trace_hash(run, &serde_json::to_string(&case).unwrap(), &t, r.is_err()));
         }
         if wo.samples.len() < 3 && ctx.cov.last_run_nontrivial && r.is_ok() {
             wo.samples.push(json!({"run": run, "world": W::NAME, "case": serde_json::to_value(&case).unwrap()}));
@@ -196,6 +202,8 @@ pub fn worker<W: World>(
 pub fn miri_batch<W: World>(prop: &str, seed: u64, from: u64, to: u64, sweep: bool, stride: u64, offset: u64) -> i32 {
     install_quiet_panic_hook();
     let mut ctx = Ctx::new(prop, Tier::Quick);
+    let trace = std::env::args().any(|a| a == "--trace");
+    let mut th = 0u64;
     for run in from..to {
         if stride > 1 && run % stride != offset % stride {
             continue;
@@ -212,10 +220,21 @@ pub fn miri_batch<W: World>(prop: &str, seed: u64, from: u64, to: u64, sweep: bo
         if std::env::args().any(|a| a == "--gen-only") {
             continue;
         }
-        if let Err(v) = run_case::<W>(&case, &mut ctx) {
+        if trace {
+            ctx.trace = Some(Vec::new());
+        }
+        let r = run_case::<W>(&case, &mut ctx);
+        if trace {
+            let t = ctx.trace.take().unwrap_or_default();
+            th = th.wrapping_add(run_trace_hash(run, &serde_json::to_string(&case).unwrap(), &t, r.is_err()));
+        }
+        if let Err(v) = r {
             let f = Found { no_minimise: false, run, world: format!("miri:{}", W::NAME), profile: "miri".into(), case: serde_json::to_value(&case).unwrap(), violation: v };
             println!("FOUND {}", serde_json::to_string(&f).unwrap());
         }
+    }
+    if trace {
+        println!("TRACE {th:016x}");
     }
     println!("DONE {} {}", ctx.cov.runs, ctx.cov.steps);
     0
@@ -438,7 +457,7 @@ pub fn run_stage(prop: &str, tier: Tier, seed: u64, stage: &Stage, scratch: &Pat
                     }
                 }
             }
-            res.trace_hash = crate::prng::mix(res.trace_hash, wo.trace_hash);
+            res.trace_hash = res.trace_hash.wrapping_add(wo.trace_hash);
         }
         idx = wave_end;
     }
@@ -740,7 +759,7 @@ pub fn cmd_check(prop: &str, tier: Tier) -> i32 {
     if trace {
         let mut h = 0u64;
         for r in &results {
-            h = crate::prng::mix(h, r.trace_hash);
+            h = h.wrapping_add(r.trace_hash);
         }
         println!("TRACE-HASH {h:016x}");
     }
